@@ -104,6 +104,23 @@ def check_case(case):
                     if abs(lam.t - sum(ts)) > 1e-15:
                         fails.append(fail('laminate thickness wrong', got=lam.t, **ctx))
                     lams[(tpat, mpat, oname, form)] = lam
+                    # call-sequence edges on the same object: recomputing is idempotent, and moving the reference surface of an
+                    # existing laminate object gives the same matrices as building it with that offset
+                    if oname == 'gen':
+                        before = np.array(lam.ABDE)
+                        lam.calc_constitutive_matrix()
+                        trans += 1
+                        if not np.array_equal(np.asarray(lam.ABDE), before):
+                            fails.append(fail('recomputing the constitutive matrix of the same laminate object changes it', **ctx))
+                        l0 = lams.get((tpat, mpat, '0', form))
+                        if l0 is not None:
+                            l0.offset = off
+                            l0.calc_constitutive_matrix()
+                            trans += 1
+                            if not np.array_equal(np.asarray(l0.ABDE), before):
+                                fails.append(fail('changing the offset of an existing laminate object and recomputing differs from building it with that offset', **ctx))
+                            l0.offset = 0.0
+                            l0.calc_constitutive_matrix()
                     if np.abs(ref['B']).max() > 1e-9 * sc[1] or abs(ref['A'][0, 2]) > 1e-9 * sc[0]:
                         nontriv += 1
                 if len(fails) > 6:
